@@ -50,18 +50,26 @@ LEVEL_TEXT = (
     "review_is_about_the_object (whenever the review carries `object`, handlers, filters and the patch reference are "
     "about THAT object, for every `oldObject`), review_without_object (DELETE: `oldObject`; neither: refused before any "
     "handler), review_patch_fidelity (the fidelity clause with the patch applied to `request.object`, for every "
-    "oldObject; same hypotheses as returned_patch_fidelity). Clauses proved only under a "
+    "oldObject; same hypotheses as returned_patch_fidelity); changes between Python-equal values of another JSON type "
+    "(1 -> true, false -> 0): diff_always_consulted (whenever something is requested, the operations ARE from_diff's: no "
+    "comparison of the two bodies decides beforehand), type_change_reflected (at every path the patched object holds the "
+    "very value requested, hence differs from the reviewed one where that differs; hypotheses of returned_patch_fidelity), "
+    "eq_shortcut_witness / eq_shortcut_fn_witness (the rejected variant `if body_to_be == body_as_is: return []` with "
+    "Python's == drops such a change, through the merge content and through a user's function). Clauses proved only under a "
     "hypothesis: (1) 'the "
     "returned JSON patch applied to the object': returned_patch_fidelity takes, as a hypothesis, that jsonpatch's "
     "output for THIS review reproduces the wanted body (pointwise contract) — checked on every generated case by an "
     "independent RFC 6902 applier; jsonpatch 1.33 fails it on the inputs of the open findings C18-F4/C18-F5. (2) "
-    "'transformations applied': fidelity_fns for the two framework functions (block_deletion/allow_deletion), whenever "
+    "'transformations applied': fidelity_fns for the two framework functions (block_deletion/allow_deletion) and for user "
+    "functions that edit fields in place as an RFC 7386 content says (Fn.mergeWith), whenever "
     "code path and reference path both return; the model lets them raise on EVERY non-list finalizers / non-mapping "
     "metadata (the real functions are also silent on a few falsy or key-free ill-typed values): such bodies are outside "
     "the model and are not generated. Oracle/tie only: base64/JSON encoding of the patch, pointer escaping, uid echo, "
     "failure paths of serve_admission_request before the handlers run.")
 TIE = ("T (sort key of build_response, class hierarchy of AdmissionError, iter_handlers gate, _matches_subresource and "
-       "its use in match(), rules[].operations of build_webhooks: AST -> Lean, re-proved equal; the allowed/errors/"
+       "its use in match(), rules[].operations of build_webhooks: AST -> Lean, re-proved equal; the ways out of "
+       "Patch.as_json_patch anchored (the falsy-patch shortcut and ONE result from ONE from_diff call: a further early "
+       "return has no counterpart in the model); the allowed/errors/"
        "status/warnings/patch statements of build_response, Patch.__bool__ and the falsy-patch shortcut of "
        "as_json_patch, the handler id in clientConfig anchored verbatim) + D (real Patch._apply_patch + fns; "
        "Patch.as_json_patch through an independent RFC 6902 applier; build_response incl. patch/patchType; the whole "
@@ -95,6 +103,10 @@ THEOREMS = [
     ("Kopf.Props.C18", "Kopf.C18.serve_warnings_order"),
     ("Kopf.Props.C18", "Kopf.C18.apply_nonmapping_root_raises"),
     ("Kopf.Props.C18", "Kopf.C18.dropEmpty_leafEq"),
+    ("Kopf.Props.C18", "Kopf.C18.diff_always_consulted"),
+    ("Kopf.Props.C18", "Kopf.C18.type_change_reflected"),
+    ("Kopf.Props.C18", "Kopf.C18.eq_shortcut_witness"),
+    ("Kopf.Props.C18", "Kopf.C18.eq_shortcut_fn_witness"),
 ]
 TIE_THEOREMS = [
     ("Kopf.Tie.C18", "Kopf.C18.Tie.key_eq"),
@@ -107,7 +119,12 @@ TIE_THEOREMS = [
 RULE = ("three seeded streams: (patch) k8s-shaped and random bodies, patch derived key-by-key from the body "
         "(skip/delete/overwrite/type change scalar<->mapping/list/nested merge/empty mapping/leafless mapping/"
         "no-op set, plus new keys; key alphabet with '/', '~', '', unicode), fns from {block_deletion, "
-        "allow_deletion}; (serve) registry of 1-4 webhook handlers (reason, operations, subresource incl. '*', "
+        "allow_deletion}; a tenth of the patch cases and 15 % of the serve cases are QUIET: the whole effective change of "
+        "the review is minimal — 1-3 overwrites between Python-equal values of another JSON type (true/1/1.0, false/0/0.0/"
+        "-0.0, n/n.0; any depth, never inside lists), or one falsy value set, or one delete, or nothing — mixed with writes "
+        "that change nothing (same value again, delete of an absent key, {} over a mapping, a framework function without "
+        "effect), delivered through the merge content, through user transformation functions (in-place field edits), or "
+        "both, by one or two handlers; (serve) registry of 1-4 webhook handlers (reason, operations, subresource incl. '*', "
         "filters, patch piece, fns, warnings, raised error class/code/message; in a third of the cases one function is "
         "registered 2-3 times under the same id with other reason/operations/subresource/filters, in a quarter two "
         "different functions share one id; declared through kopf's decorators or hand-built, operations as list/tuple/"
@@ -154,11 +171,15 @@ ASSUMPTIONS = [
     "the conditions under which block_deletion/allow_deletion raise are not property clauses: oracle/tie only",
     "a review without an operation (malformed) matches every handler, as in the code; '*' among the declared operations "
     "admits every operation",
-    "JSON numbers are integers in generated cases (no floats)",
+    "JSON numbers are integers in the Lean model; floats (whole ones: 1.0, 0.0, -0.0, n.0) are generated in the quiet "
+    "cases only, as plain values of mappings, and those cases go through the real code and the oracle only (histogram "
+    "tie-skipped: float:*)",
     "the other filters of match() (selector, labels, annotations, fields, when) are C15's subject: an opaque boolean here",
     "registries with ONE function registered several times under its id (stacked decorators) and with TWO different "
     "functions under one id are both modelled (dedup key (fn, id); one outcome per selected handler) and generated",
-    "transformation functions are the two the framework queues itself (finalizers.block_deletion/allow_deletion)",
+    "transformation functions are the two the framework queues itself (finalizers.block_deletion/allow_deletion) and user "
+    "functions of one shape: in-place edits of fields (set / overwrite / delete / nested) scripted as an RFC 7386 content; "
+    "functions that read other state, raise, or replace lists element-wise are not generated",
 ]
 
 SIG_F4 = {"site": "Patch._apply_patch", "shape": "mapping patched over non-mapping target raises TypeError"}
@@ -167,6 +188,8 @@ SIG_LISTBOOL = {"site": "jsonpatch.from_diff", "shape": "bool vs equal int not d
 SIG_MOVE = {"site": "jsonpatch.from_diff", "shape": "move optimisation with list indices yields a wrong or inapplicable patch"}
 SIG_SAMEID = {"site": "execution.execute_handlers_once",
               "shape": "outcomes keyed by handler id: the outcome of one same-id handler overwrites another's"}
+SIG_TYPECHANGE = {"site": "Patch.as_json_patch",
+                  "shape": "requested change between Python-equal values of different JSON type is not reflected"}
 SIG_OPS = {"site": "WebhooksRegistry.iter_handlers", "shape": "handler.operations not compared with the request operation"}
 
 # =================================================================================================
@@ -320,6 +343,16 @@ def extract(ctx: Ctx) -> None:
         fn = pyextract.find_def(ptree, qual)
         if anchor not in [pyextract.norm(st) for st in pyextract.body_without_docstring(fn)]:  # type: ignore[arg-type]
             raise ExtractError(f"{qual}: statement changed or missing: `{anchor}`")
+    # -- the ways out of as_json_patch: the model's `asJsonPatch` has the falsy-patch shortcut, the failures and ONE
+    # result, the diff of (body as is, body to be); any further exit (an early `return` that decides "nothing to
+    # report" by some comparison of its own) has no counterpart in the model
+    ajp = pyextract.find_def(ptree, "Patch.as_json_patch")
+    ajp_body = pyextract.body_without_docstring(ajp)   # type: ignore[arg-type]
+    rets = [n for n in ast.walk(ajp) if isinstance(n, ast.Return)]
+    diffs = [n for n in ast.walk(ajp) if isinstance(n, ast.Call) and pyextract.norm(n.func).endswith("from_diff")]
+    if len(rets) != 2 or len(diffs) != 1 or not ajp_body or not isinstance(ajp_body[-1], ast.Return):
+        raise ExtractError(f"Patch.as_json_patch: expected the falsy-patch shortcut and one final result from one "
+                           f"from_diff call; found {len(rets)} return statement(s), {len(diffs)} from_diff call(s)")
     # -- the managed webhook configuration: rules[].operations and the id in the client config
     bw = pyextract.find_def(atree, "build_webhooks")
     ops_exprs = [v for n in ast.walk(bw) if isinstance(n, ast.Dict)
@@ -544,8 +577,54 @@ def kopf_env() -> dict[str, Any]:
 FNS = {"add": "block_deletion", "remove": "allow_deletion"}
 
 
-def mk_fns(env: dict, fns: list[list[str]]) -> list[Any]:
-    return [functools.partial(getattr(env["finalizers"], FNS[kind]), finalizer=f) for kind, f in fns]
+def _edit_in_place(d: dict, q: dict) -> None:
+    for k, v in q.items():
+        if v is None:
+            d.pop(k, None)
+        elif isinstance(v, dict):
+            if not isinstance(d.get(k), dict):
+                d[k] = {}
+            _edit_in_place(d[k], v)
+        else:
+            d[k] = copy.deepcopy(v)
+
+
+def user_fn(q: dict) -> Any:
+    """a USER's transformation function (`patch.fns.append(fn)`): edits fields of the body in place — sets,
+    overwrites, deletes, nested — as its script `q` says (`body['spec']['ratio'] = 1.0`, `del body['x']`, …)"""
+    def fn(body: Any) -> None:
+        _edit_in_place(body, q)
+    return fn
+
+
+def mk_fns(env: dict, fns: list[list[Any]]) -> list[Any]:
+    return [user_fn(f) if kind == "merge" else functools.partial(getattr(env["finalizers"], FNS[kind]), finalizer=f)
+            for kind, f in fns]
+
+
+def has_float(x: Any) -> bool:
+    if isinstance(x, float):
+        return True
+    if isinstance(x, dict):
+        return any(has_float(v) for v in x.values())
+    if isinstance(x, (list, tuple)):
+        return any(has_float(v) for v in x)
+    return False
+
+
+def diff_sites(a: Any, b: Any, path: tuple = ()) -> list[tuple[tuple, bool, bool]]:
+    """where two documents differ AS JSON: (path, is a list, Python-equal). Mappings are descended; a list is one site."""
+    if isinstance(a, dict) and isinstance(b, dict):
+        out: list[tuple[tuple, bool, bool]] = []
+        for k in list(a) + [k for k in b if k not in a]:
+            if k not in a or k not in b:
+                out.append((path + (k,), False, False))
+            else:
+                out += diff_sites(a[k], b[k], path + (k,))
+        return out
+    if eq_strict(a, b):
+        return []
+    return [(path, isinstance(a, list) and isinstance(b, list), bool(a == b))]
 
 
 def err_tag(e: BaseException) -> str:
@@ -798,6 +877,155 @@ def gen_patch_case(r: random.Random) -> dict:
     return case
 
 
+# ---- "quiet" reviews: the WHOLE effective change of the review is minimal -------------------------------------
+NUMS = [0, 1, True, False] * 3 + [3, -7, 2 ** 40, 1.0, 0.0]
+
+
+def pyeq_twins(v: Any) -> list[Any]:
+    """the values Python's `==` equates with `v` although they are other JSON values (true/1/1.0, false/0/0.0/-0.0, 3/3.0)"""
+    out: list[Any] = []
+    if isinstance(v, bool):
+        out = [int(v), float(v)]
+    elif isinstance(v, int):
+        if v in (0, 1):
+            out.append(bool(v))
+        if abs(v) < 2 ** 53:
+            out.append(float(v))
+        if v == 0:
+            out.append(-0.0)
+    elif isinstance(v, float) and v.is_integer():
+        out.append(int(v))
+        if v in (0.0, 1.0):
+            out.append(bool(v))
+    return [w for w in out if json.dumps(w) != json.dumps(v)]
+
+
+def leaf_paths(d: dict, prefix: tuple = ()) -> list[tuple[tuple, Any]]:
+    out: list[tuple[tuple, Any]] = []
+    for k, v in d.items():
+        if isinstance(v, dict):
+            out += leaf_paths(v, prefix + (k,))
+        else:
+            out.append((prefix + (k,), v))
+    return out
+
+
+def mapping_paths(d: dict, prefix: tuple = ()) -> list[tuple]:
+    out = [prefix]
+    for k, v in d.items():
+        if isinstance(v, dict):
+            out += mapping_paths(v, prefix + (k,))
+    return out
+
+
+def _at(d: Any, path: tuple) -> Any:
+    for k in path:
+        d = d[k]
+    return d
+
+
+def _put(d: dict, path: tuple, v: Any) -> None:
+    for k in path[:-1]:
+        if not isinstance(d.get(k), dict):
+            d[k] = {}
+        d = d[k]
+    d[path[-1]] = v
+
+
+def gen_quiet(r: random.Random, body: dict, tags: set[str]) -> tuple[dict, list[dict]]:
+    """(merge content, scripts of user functions) whose WHOLE effect on `body` is minimal: only overwrites between
+    Python-equal values of different JSON type (at any depth, 1-3 of them), or one set of a falsy value, or one
+    delete, or nothing at all — mixed with writes that change nothing (same value again, delete of an absent key,
+    empty mapping over a mapping). `body` gets a few numeric/boolean leaves first (in place). `metadata` is left alone."""
+    def free(p: tuple) -> bool:
+        return not p or p[0] != "metadata"
+    for _ in range(r.randint(1, 3)):
+        mp = r.choice([p for p in mapping_paths(body) if free(p)])
+        if len(mp) < 3 and r.random() < 0.3:
+            nk = r.choice(KEYS)
+            if nk not in _at(body, mp) and free(mp + (nk,)):
+                _at(body, mp)[nk] = {}
+                mp = mp + (nk,)
+        nk = r.choice(KEYS)
+        if nk not in _at(body, mp) and free(mp + (nk,)):
+            _at(body, mp)[nk] = r.choice(NUMS)
+    leaves = [(p, v) for p, v in leaf_paths(body) if free(p)]
+    maps = [p for p in mapping_paths(body) if free(p)]
+    changes: list[tuple[tuple, Any]] = []
+    kind = r.choice(["pyeq", "pyeq", "pyeq", "pyeq", "falsy", "delete", "noop"])
+    if kind == "pyeq":
+        cands = [(p, v) for p, v in leaves if pyeq_twins(v)]
+        for p, v in r.sample(cands, min(len(cands), r.choice([1, 1, 2, 3]))):
+            exact = [w for w in pyeq_twins(v) if not isinstance(w, float)]
+            w = r.choice(exact) if exact and r.random() < 0.7 else r.choice(pyeq_twins(v))
+            changes.append((p, w))
+            tags.add("quiet:pyeq:" + type(v).__name__ + "->" + type(w).__name__)
+    elif kind == "falsy":
+        w = r.choice([0, "", False, [], 0.0])
+        truthy = [(p, v) for p, v in leaves if v and not isinstance(v, list)]
+        if truthy and r.random() < 0.6:
+            changes.append((r.choice(truthy)[0], w))
+            tags.add("quiet:falsy-over-truthy")
+        else:
+            mp, nk = r.choice(maps), r.choice(KEYS)
+            if nk not in _at(body, mp) and free(mp + (nk,)):
+                changes.append((mp + (nk,), w))
+                tags.add("quiet:falsy-new")
+    elif kind == "delete" and leaves:
+        changes.append((r.choice(leaves)[0], None))
+        tags.add("quiet:delete-only")
+    if not changes:
+        tags.add("quiet:noop-only")
+    taken = {p for p, _ in changes}
+    noise: list[tuple[tuple, Any]] = []
+    for _ in range(r.choice([0, 1, 1, 2, 3])):
+        x = r.random()
+        if x < 0.5 and leaves:
+            p, v = r.choice(leaves)
+            if p not in taken and v is not None:
+                noise.append((p, copy.deepcopy(v)))
+                tags.add("quiet:+set-same")
+        elif x < 0.75:
+            mp, nk = r.choice(maps), r.choice(KEYS)
+            if nk not in _at(body, mp) and mp + (nk,) not in taken and free(mp + (nk,)):
+                noise.append((mp + (nk,), None))
+                tags.add("quiet:+delete-absent")
+        else:
+            mp = r.choice(maps)
+            if mp and not any(q[:len(mp)] == mp for q in taken | {q for q, _ in noise}):
+                noise.append((mp, {}))
+                tags.add("quiet:+empty-mapping")
+    mode = r.choice(["patch", "patch", "fn", "both"])
+    content: dict = {}
+    scripts: list[dict] = [{} for _ in range(r.choice([1, 1, 2]))] if mode != "patch" else []
+    for p, v in noise + changes:
+        via_fn = mode == "fn" or (mode == "both" and r.random() < 0.5)
+        if via_fn and isinstance(v, dict):
+            continue                        # ({} over a mapping is an instruction of the merge content only)
+        _put(r.choice(scripts) if via_fn else content, p, v)
+    scripts = [q for q in scripts if q]
+    if scripts:
+        tags.add("user-fn")
+    if has_float([body, content, scripts]):
+        tags.add("float")
+    return content, scripts
+
+
+def gen_quiet_patch_case(r: random.Random) -> dict:
+    body = gen_body(r)
+    tags: set[str] = set()
+    content, scripts = gen_quiet(r, body, tags)
+    fns: list[list[Any]] = [["merge", q] for q in scripts]
+    if r.random() < 0.2 and fns_safe(body, content):
+        # a framework function that changes nothing here: removing a finalizer that is not there
+        present = body.get("metadata", {}).get("finalizers", []) if isinstance(body.get("metadata"), dict) else []
+        absent = [f for f in FINALIZERS if f not in present]
+        if absent:
+            fns.insert(r.randint(0, len(fns)), ["remove", r.choice(absent)])
+            tags.add("quiet:+noop-finalizer-fn")
+    return {"stream": "patch", "body": body, "patch": content, "fns": fns, "tags": sorted(tags)}
+
+
 ERR_KINDS = ["admission", "permanent", "temporary", "other"]
 MESSAGES = ["", "denied", "boom ü", "x" * 40]
 CODES = [400, 403, 409, 422, 500, 599, 123, 299, None, 0, "default"]
@@ -1006,9 +1234,39 @@ def gen_serve_case(r: random.Random) -> dict:
         elif base["filter"] != "field-a":
             other["filter"] = r.choice(["none", "none", "when-true", "when-false", "label-yes"])
         hs.insert(r.choice([hs.index(base), hs.index(base) + 1, len(hs)]), other)
+    quiet = r.random() < 0.15
+    if quiet:
+        # the whole review asks for a minimal change (see gen_quiet): one or two handlers that surely run carry it
+        qtags: set[str] = set()
+        content, scripts = gen_quiet(r, body, qtags)
+        operation = r.choice(["CREATE", "UPDATE", "UPDATE", "CONNECT"])
+        for h in hs:
+            h["writes"], h["fns"], h["tags"] = [], [], []
+        plain = [h for h in hs if h["filter"] != "field-a"] or hs[:1]
+        carriers = r.sample(plain, min(len(plain), r.choice([1, 1, 2])))
+        for h in carriers:
+            h.update({"reason": "mutating", "operations": None, "ops_form": "list", "subresource": "*", "tags": sorted(qtags)})
+            if h["filter"] == "field-a":
+                h["via"] = "direct"
+            h["filter"] = "none"
+        for k, v in content.items():
+            h = r.choice(carriers)
+            if k in ("spec", "status") and isinstance(v, dict) and v and r.random() < 0.5:
+                h["writes"] += [{"api": k, "key": k2, "value": v2} for k2, v2 in v.items()]
+            else:
+                h["writes"].append({"api": "item", "key": k, "value": v})
+        for q in scripts:
+            r.choice(carriers)["fns"].append(["merge", q])
+        for h in hs:       # the behaviour belongs to the function: registrations of one function share it
+            first = next(g for g in hs if _key(g) == _key(h))
+            h["writes"], h["fns"], h["tags"] = first["writes"], first["fns"], first["tags"]
+            if first in carriers and h is not first:
+                h.update({"reason": "mutating", "filter": first["filter"]})
     ids_ = [h["id"] for h in hs]
     webhook = r.choice([None] * 6 + [r.choice(ids_), r.choice(ids_), r.choice(ids_), "nobody"])
     reason_hint = r.choice([None] * 5 + ["validating", "mutating"])
+    if quiet and r.random() < 0.8:
+        webhook, reason_hint = None, None
     case: dict[str, Any] = {"stream": "serve", "body": body, "operation": operation, "subresource": subresource,
                             "webhook": webhook, "reason": reason_hint, "handlers": hs}
     # the hint as a webhook server gets it: the path of the URL kopf configured for that handler, decoded
@@ -1189,8 +1447,17 @@ def oracle_patch(res: Result, body: dict, patch: dict, fn_objs: list, ops: Any, 
         # (B) the diff against the mechanism's own result
         if not eq_strict(got, to_be):
             res.diff_suspect = True
-            if eq_loose_lists(got, to_be) or got == to_be:   # Python ==: True == 1, False == 0
+            # Python ==: True == 1, False == 0. The open finding C18-F4 is jsonpatch's: it compares LIST ELEMENTS and
+            # MOVE/COPY candidates that way. A Python-equal difference anywhere else (a plain value of a mapping the
+            # diff neither moved nor copied) is NOT that finding: the requested type change was dropped on the way.
+            sites = diff_sites(got, to_be)
+            moved = [tuple(ptr_parse(op["path"])) for op in ops if op.get("op") in ("move", "copy")]
+            excused = [pe and (inl or any(p[:len(m)] == m for m in moved)) for p, inl, pe in sites]
+            if sites and all(excused):
                 sigs.append(SIG_LISTBOOL)
+            elif sites and all(pe for _, _, pe in sites):
+                where = ", ".join("/" + "/".join(p) for (p, _, _), x in zip(sites, excused) if not x)
+                sigs.append({**SIG_TYPECHANGE, "_where": where})
             elif any(op.get("op") == "move" and _through_list(body, op, to_be) for op in ops):
                 sigs.append(SIG_MOVE)
             elif not eq_strict(strip_empty(got), strip_empty(to_be)):
@@ -1202,7 +1469,9 @@ def oracle_patch(res: Result, body: dict, patch: dict, fn_objs: list, ops: Any, 
         res.fail(text, {"site": "Patch.as_json_patch", "shape": "json patch does not yield the merged object"})
     else:
         for sg in sigs:
-            res.fail(text + f" [{sg['shape']}]", sg)
+            where = sg.get("_where")
+            sg = {k: v for k, v in sg.items() if k != "_where"}
+            res.fail(text + f" [{sg['shape']}{': at ' + where if where else ''}]", sg)
     return got
 
 
@@ -1744,6 +2013,8 @@ def gen_case(r: random.Random) -> dict:
     x = r.random()
     if x < 0.004:
         return gen_e2e_case(r)
+    if x < 0.09:
+        return gen_quiet_patch_case(r)
     if x < 0.60:
         return gen_patch_case(r)
     if x < 0.88:
@@ -1785,6 +2056,11 @@ def run_shard(args: tuple[str, int, list | None]) -> dict:
             for what, sig in res.fails:
                 out["fails"].append((what, sig, case))
             for what, req, impl in res.reqs:
+                if has_float(req):
+                    # the model's JSON numbers are integers: cases with a float go through the real code and the
+                    # oracle only (counted, not compared)
+                    count("tie-skipped", "float:" + what.split("(")[0])
+                    continue
                 out["reqs"].append((what, req, impl, case))
     asyncio.run(go())
     return out
